@@ -13,7 +13,7 @@ import (
 func init() {
 	register(&propDef{
 		id: "C11", level: "other", run: runC11,
-		explanation: "Decided per path (which covers every cut/fault offset): (R1) every call in the reachable decoder functions whose result includes an error is followed, on every path on which that error is non-nil, by a return whose error operand is that error, a wrapper of it, or statically non-nil; the only frozen exceptions are hash Write (never fails) and fill's `n > 0 => err = nil` (data was delivered; the io.Reader contract re-delivers the error). (R2) a return that may carry nil while a callee error is non-nil (a swallow site) is allowed only in DecodeChained, only under errors.Is(err, <EOF class>) and only after at least one file. (R3) the EOF-class sentinel that ends a chain is produced only by the first-byte EOF branch of decodeHeader. (R4) messages are added only after they parsed completely (C03-6). (R5) Decode returns the File on every path; DecodeChained appends the partial File before returning an error. NOT decided: the per-offset enumeration as an observation, or that the partial File contains exactly the complete messages (follows from R4). C03-7-container-writers runs here too: messages reach File.FileId and the containers only complete, through the routers, so the partial File beside an error holds no half-decoded message. An error still pending when the loop re-executes the call that produced it counts as dropped. The read discipline of C04 and the capped read of C10 run here too: input is obtained only at the enumerated read sites, each reading what the framing says is still due.",
+		explanation: "Decided per path (which covers every cut/fault offset): (R1) every call in the reachable decoder functions whose result includes an error is followed, on every path on which that error is non-nil, by a return whose error operand is that error, a wrapper of it, or statically non-nil; the only frozen exceptions are hash Write (never fails) and fill's `n > 0 => err = nil` (data was delivered; the io.Reader contract re-delivers the error). (R2) a return that may carry nil while a callee error is non-nil (a swallow site) is allowed only in DecodeChained, only under errors.Is(err, <EOF class>) and only after at least one file. (R3) the EOF-class sentinel that ends a chain is produced only by the first-byte EOF branch of decodeHeader. (R4) messages are added only after they parsed completely (C03-6). (R5) Decode returns the File on every path; DecodeChained appends the partial File before returning an error. NOT decided: the per-offset enumeration as an observation, or that the partial File contains exactly the complete messages (follows from R4). C03-7-container-writers runs here too: messages reach File.FileId and the containers only complete, through the routers, so the partial File beside an error holds no half-decoded message. An error still pending when the loop re-executes the call that produced it counts as dropped. The read discipline of C04 and the capped read of C10 run here too: input is obtained only at the enumerated read sites, each reading what the framing says is still due. (R6-no-read-ahead) more input is requested only while the caller still needs a byte.",
 		trusted:     []string{"go/ssa CFG and dominator tree", "hash.Hash.Write never returns an error (documented)", "fmt.Errorf/errors.New never return nil", "standard-library sentinel errors are non-nil"},
 	})
 }
@@ -133,6 +133,7 @@ func runC11(c *Ctx, r *Report) {
 	if fn := c.ssaFn(c.fn(c.fit, "decoder.fill")); fn != nil {
 		c10FillCap(c, r, fn)
 	}
+	c11NoReadAhead(c, r)
 	// R4
 	c03DecoderAdds(c, r)
 	c03ContainerWriters(c, r) // a message reaches its container complete, through the router, or not at all
@@ -483,4 +484,81 @@ func c11FreshDecoder(c *Ctx, r *Report) {
 		}
 		r.need("CopyN sites under decode", n, 1)
 	}
+}
+
+// c11NoReadAhead (C11-R6-no-read-ahead, after wave-13 seed C11-R): the decoder asks its reader for
+// more input only when the caller still needs a byte — every call of fill is dominated by the edge
+// "the window is empty" (i == j) of a byte reader, or "bytes are still due" (len(rest) != 0) of a
+// block reader. A refill issued after the request was already satisfied turns a cut or fault at a
+// record boundary into an error for a message that was complete (it is then not filed), and shifts
+// every "first failing read" by one request.
+func c11NoReadAhead(c *Ctx, r *Report) {
+	const rule = "C11-R6-no-read-ahead"
+	fill := c.ssaFn(c.fn(c.fit, "decoder.fill"))
+	if fill == nil {
+		r.fail(rule, "decoder.fill", "", "not found")
+		return
+	}
+	n := 0
+	for _, fn := range c.moduleFuncs() {
+		if fnPkgPath(fn) != modPath || fn == fill {
+			continue
+		}
+		idx := 0
+		for _, ci := range allCalls(fn) {
+			if ci.Common().StaticCallee() != fill {
+				continue
+			}
+			n++
+			idx++
+			isEmptyWindow := func(v ssa.Value) (bool, bool) { // matches, polarity (true: cond true means "needs a byte")
+				bo, ok := v.(*ssa.BinOp)
+				if !ok {
+					return false, false
+				}
+				x, y := stripAddrs(pathOf(bo.X)), stripAddrs(pathOf(bo.Y))
+				ij := (strings.HasSuffix(x, ".bytes.i") && strings.HasSuffix(y, ".bytes.j")) || (strings.HasSuffix(x, ".bytes.j") && strings.HasSuffix(y, ".bytes.i"))
+				if ij && bo.Op == token.EQL {
+					return true, true
+				}
+				if ij && bo.Op == token.NEQ {
+					return true, false
+				}
+				// len(rest) ==/!=/> 0
+				isLen := func(a ssa.Value) bool {
+					call, ok := a.(*ssa.Call)
+					if !ok {
+						return false
+					}
+					bi, ok := call.Common().Value.(*ssa.Builtin)
+					return ok && bi.Name() == "len"
+				}
+				isZero := func(a ssa.Value) bool {
+					k, ok := a.(*ssa.Const)
+					return ok && k.Value != nil && k.Int64() == 0
+				}
+				if isLen(bo.X) && isZero(bo.Y) {
+					switch bo.Op {
+					case token.EQL:
+						return true, false
+					case token.NEQ, token.GTR:
+						return true, true
+					}
+				}
+				if isZero(bo.X) && isLen(bo.Y) {
+					switch bo.Op {
+					case token.EQL:
+						return true, false
+					case token.NEQ, token.LSS:
+						return true, true
+					}
+				}
+				return false, false
+			}
+			ok := domByBoolEdge(fn, ci.Block(), true, func(v ssa.Value) bool { m, pol := isEmptyWindow(v); return m && pol }) ||
+				domByBoolEdge(fn, ci.Block(), false, func(v ssa.Value) bool { m, pol := isEmptyWindow(v); return m && !pol })
+			r.check(ok, rule, fmt.Sprintf("%s/fill#%d", fn.Name(), idx), c.pos(ci.Pos()), "more input is requested only while the caller still needs a byte", "fill is called in "+fn.Name()+" on a path where the request is already satisfied (not under `window empty` / `bytes still due`): a cut or fault right after a complete record becomes that record's error, and the message is not filed")
+		}
+	}
+	r.need("calls of fill", n, 1)
 }
